@@ -312,7 +312,7 @@ pub fn run_case(ctx: &Ctx, st: &mut Stats, label: &str, input: &Input, with_pair
 	let (key, what) = if unchanged_expected && !several {
 		let d = mapmodel::first_difference(&input.mappings, &actual).unwrap_or(("other".into(), "sets differ".into()));
 		let why = exp.candidates.iter().filter(|c| c.near_miss).map(|c| oracle::strip(&c.reason).to_owned()).collect::<std::collections::BTreeSet<_>>().into_iter().collect::<Vec<_>>().join("+");
-		(format!("add:unexpected-change:{}:{}", d.0, if why.is_empty() { "no-candidate".into() } else { why }), format!("no method of the jar is a bridge, but the produced mappings differ from the given ones: {}", d.1))
+		(format!("add:unexpected-change:{}:{}", d.0, if why.is_empty() { "no-candidate".into() } else { why }), format!("the given mappings must be returned as they are (no bridge concerns an entry, or the entry concerned already carries the name), but the produced mappings differ from them: {}", d.1))
 	} else if actual == input.mappings {
 		let d = mapmodel::first_difference(primary, &actual).unwrap_or(("other".into(), "sets differ".into()));
 		("add:rename-missing".into(), format!("the mappings are returned unchanged although a bridge's delegate must be renamed: {}", d.1))
